@@ -171,8 +171,10 @@ Definition replay1 (pk : list (pkt * bool)) (l : list state) (r : list Z) : opti
   if tag r =? 1 then
     (* poll_transmit returned a datagram: ack-eliciting or not (the next probe's
        permit_idle_reset tells), or a PATH_CHALLENGE built with finish() (no tracking) *)
-    let f := fun x => [fst (poll_transmit x t (txe true)); fst (poll_transmit x t (txe false));
-                       if is_closed (st x) then fst (poll_transmit x t (txe false)) else x] in
+    (* ... or a datagram without any lifecycle effect: the one PATH_CHALLENGE to the previous path
+       that follows a migration is sent by [send_path_challenge] before the close branch, also
+       while closing or draining *)
+    let f := fun x => [fst (poll_transmit x t (txe true)); fst (poll_transmit x t (txe false)); x] in
     Some (dedup (flat_map f l) [])
   else if tag r =? 2 then
     (* one datagram = up to four coalesced packets ([PDiscard] is the identity) *)
